@@ -162,6 +162,9 @@ class _Canon(ast.NodeTransformer):
             return f.value
         if name in ("copy", "asarray", "asanyarray") and len(node.args) == 1 and not node.keywords:
             return node.args[0]
+        # reciprocal(x) == 1 / x (value-level; the integer-division hazard of np.reciprocal is a rule of its own, C02.8)
+        if name == "reciprocal" and len(node.args) == 1 and all(k.arg == "dtype" for k in node.keywords):
+            return ast.BinOp(left=ast.Constant(value=1), op=ast.Div(), right=node.args[0])
         # expand_dims(a, axis=1) / expand_dims(a, 1) == a[:, newaxis]
         if name == "expand_dims" and len(node.args) >= 1 and ((len(node.args) == 2 and isinstance(node.args[1], ast.Constant) and node.args[1].value == 1 and not node.keywords) or (len(node.args) == 1 and len(node.keywords) == 1 and node.keywords[0].arg == "axis" and isinstance(node.keywords[0].value, ast.Constant) and node.keywords[0].value.value == 1)):
             return ast.Subscript(value=node.args[0], slice=ast.Tuple(elts=[ast.Slice(), ast.Name(id="newaxis", ctx=ast.Load())], ctx=ast.Load()), ctx=ast.Load())
